@@ -16,4 +16,10 @@ def asnGlobals : List GlobalVar := [
   ⟨"asn_type.go:UTF8StringType", 0, 0, 0, 0, 0, 0⟩
 ]
 
+/-- every package-level variable of cdr/cdrFile: name, kind (0 reflect.Type handle, 1 scalar, 2 reference, 3 other),
+    assignments, address-of, method calls, hand-ons of the bare variable (all outside init), writes from other packages -/
+def cdrFileGlobals : List GlobalVar := [
+
+]
+
 end Chf.Gen
